@@ -211,6 +211,7 @@ func C03(run *mon.Run) {
 		go func(ji int, j job) {
 			defer wg.Done()
 			defer func() { <-sem }()
+			defer run.Protect("c03 worker")
 			r := run.Rand(fmt.Sprintf("ex-%d", ji))
 			var bad []int
 			for i := 0; i < j.n; i++ {
@@ -247,6 +248,7 @@ func C03(run *mon.Run) {
 		go func(si int) {
 			defer wg.Done()
 			defer func() { <-sem }()
+			defer run.Protect("c03 worker")
 			r := run.Rand(fmt.Sprintf("sampled-%d", si))
 			n := 8 + r.IntN(maxN-7)
 			if si%7 == 0 {
